@@ -243,31 +243,50 @@ def r_transl(ctx):
         return
     p1, p2 = [e.id for e in un[0].targets[0].elts]
     w, ws = Rat.sym("w"), Rat.sym("ws")
-    cases = []
-    for (c1, c2) in ((2, 1), (1, 2)):
-        for mirrored in ("absent", "nonzero", "zero"):
-            if mirrored == "absent":
-                exp = (2, 1, w / Rat(2))
-            elif c1 > c2:
-                exp = (2, 1, (w + (ws if mirrored == "nonzero" else Rat(0))) / Rat(2))
-            else:
-                exp = None          # emitted when the mirrored key itself is visited
-            cases.append(((c1, c2), mirrored, exp))
-    cases.append(((1, 1), "self", (1, 1, w)))
+    zero = Rat(0)
+    # one unordered pair {a, b} of leaf points with indices 1 < 2: the key (a, b), the key (b, a), or both, with generic or explicitly zero weights;
+    # whatever the keys present, the translation must hold exactly one lower-triangular entry (2, 1) with half the sum of the weights
+    configs = [("only the key with the smaller index first", w, None), ("only the key with the larger index first", None, w),
+               ("both keys, generic weights", w, ws), ("both keys, the smaller-index-first one with weight 0", zero, ws),
+               ("both keys, the larger-index-first one with weight 0", w, zero)]
     shown = {}
-    for (c1, c2), mirrored, exp in cases:
-        label = "first index %s second, mirrored key %s" % (">" if c1 > c2 else ("<" if c1 < c2 else "="), mirrored)
+    for label, w12, w21 in configs:
+        total = {}
+        detail = []
+        bad = None
         try:
-            got = _sparse_run(pbody, p1, p2, cs, gi, gj, gv, c1, c2, mirrored, triplets)
-            okp = (got is None and exp is None) or (got is not None and exp is not None and not isinstance(got, str)
-                                                     and got[0] == exp[0] and got[1] == exp[1] and isinstance(got[2], Rat) and got[2].equals(exp[2]))
-            msg = ("emits (row, col, value) = (%s, %s, %s)" % exp if exp else "emits nothing (handled when the mirrored key is visited)") if okp else \
-                "emits %s, expected %s (one lower-triangular entry per unordered pair, off-diagonal weights halved, mirrored keys merged once)" % (
-                    got if got is None or isinstance(got, str) else "(%s, %s, %s)" % got, exp if exp is None else "(%s, %s, %s)" % exp)
+            for (c1, c2), own, mir in (((1, 2), w12, w21), ((2, 1), w21, w12)):
+                if own is None:
+                    continue
+                got = _sparse_run(pbody, p1, p2, cs, gi, gj, gv, c1, c2, "given", triplets, own=own, mirror_val=mir)
+                detail.append("key (%d, %d): %s" % (c1, c2, "nothing" if got is None else (got if isinstance(got, str) else "(%s, %s, %s)" % got)))
+                if got is None:
+                    continue
+                if isinstance(got, str):
+                    bad = got
+                    break
+                if not (isinstance(got[0], int) and isinstance(got[1], int)) or got[0] < got[1]:
+                    bad = "entry (%s, %s) is not in the lower triangle" % (got[0], got[1])
+                    break
+                total[(got[0], got[1])] = total.get((got[0], got[1]), zero) + got[2]
         except AnalysisError as e:
             raise AnalysisError("sparse translator: %s" % e)
-        shown[label] = str(got)
+        want = ((w12 if w12 is not None else zero) + (w21 if w21 is not None else zero)) / Rat(2)
+        total = {k: v for k, v in total.items() if not v.is_zero()}
+        okp = bad is None and ((not total and want.is_zero()) or (set(total) == {(2, 1)} and total[(2, 1)].equals(want)))
+        msg = ("the pair contributes (2, 1, %s) once" % want) if okp else \
+            "%s; the translation holds %s, expected the single lower-triangular entry (2, 1, %s) (off-diagonal weights halved, mirrored keys merged once)" % (
+                "; ".join(detail) if not bad else bad, {k: str(v) for k, v in total.items()} or "nothing", want)
+        shown[label] = "; ".join(detail)
         ctx.ob("R-TRANSL", "expression_to_sparse_matrices::pair, %s" % label, okp, msg, loc(sparse, pbody[0]))
+    try:
+        got = _sparse_run(pbody, p1, p2, cs, gi, gj, gv, 1, 1, "self", triplets)
+    except AnalysisError as e:
+        raise AnalysisError("sparse translator: %s" % e)
+    okp = got is not None and not isinstance(got, str) and got[0] == 1 and got[1] == 1 and isinstance(got[2], Rat) and got[2].equals(w)
+    ctx.ob("R-TRANSL", "expression_to_sparse_matrices::pair, squared norm", okp,
+           "a key (p, p) contributes (i, i, weight)" if okp else "a key (p, p) contributes %s, expected (1, 1, w)" % (got if got is None or isinstance(got, str) else "(%s, %s, %s)" % got,),
+           loc(sparse, pbody[0]))
     ctx.sample({"rule": "R-TRANSL", "sparse pair branch": shown})
     # the MOSEK back-end uses the sparse translator only
     mb = [b for b in common.backends(repo) if "mosek" in b.name.lower()][0]
@@ -516,8 +535,9 @@ class _Skip(Exception):
     pass
 
 
-def _sparse_run(body, p1, p2, cs, gi, gj, gv, c1, c2, mirrored, triplets=None):
-    """Abstract run of the pair branch with concrete indices c1, c2 and symbolic weights; returns the appended (row, col, value), None, or a text."""
+def _sparse_run(body, p1, p2, cs, gi, gj, gv, c1, c2, mirrored, triplets=None, own=None, mirror_val=None):
+    """Abstract run of the pair branch with concrete indices c1, c2 and symbolic weights; returns the appended (row, col, value), None, or a text.
+    own / mirror_val override the weight of the visited key and of its mirrored key (mirrored == 'given')."""
     owner = cs.owner
     w, ws = Rat.sym("w"), Rat.sym("ws")
     if mirrored == "self":
@@ -526,8 +546,14 @@ def _sparse_run(body, p1, p2, cs, gi, gj, gv, c1, c2, mirrored, triplets=None):
         ws_val, present = ws, True
     elif mirrored == "zero":
         ws_val, present = Rat(0), True
+    elif mirrored == "given":
+        ws_val, present = mirror_val, mirror_val is not None
     else:
         ws_val, present = None, False
+    if own is not None:
+        w = own
+        if mirrored == "self":
+            ws_val = own
     env = {cs.weight: w, p1: ("point", 1), p2: ("point", 2)}
     out = {"i": [], "j": [], "v": []}
 
